@@ -15,27 +15,37 @@ fn texts(rng: &mut Rng) -> String {
 
 pub fn scenario(sub: u64) -> Option<(String, u64, usize)> {
     let mut rng = Rng::new(sub);
-    let kind = rng.below(3);
-    let n = *rng.pick(&[1usize, 7, 300, 1500, 4097, 4300]);
-    let (stream, peer) = mock_pair();
-    let broker = Broker::start(peer.clone(), BrokerCfg::default());
-    let mut conn = with_deadline(
-        move || Connection::insecure_open_stream(stream, ConnectionOptions::<Auth>::default(), ConnectionTuning::default()),
-        Duration::from_secs(5),
-    )?
-    .ok()?;
-    let ch = conn.open_channel(None).ok()?;
-    let id = ch.channel_id();
+    // subs 1..=8 are fixed points of the space: every kind, the long backlogs included
+    let forced: Option<(u64, usize)> = match sub {
+        1 => Some((0, 4300)),
+        2 => Some((1, 4097)),
+        3 => Some((2, 4300)),
+        4 => Some((3, 5)),
+        5 => Some((4, 4)),
+        6 => Some((1, 1500)),
+        7 => Some((0, 300)),
+        8 => Some((3, 7)),
+        _ => None,
+    };
+    // 0 confirms / 1 returns / 2 blocked notices piling up unread; 3 confirms / 4 returns that
+    // the server sends between the client's Channel.Close and its own CloseOk
+    let kind = rng.below(5);
+    let window0 = kind >= 3;
+    let n = if window0 { rng.range(1, 7) as usize } else { *rng.pick(&[1usize, 7, 300, 1500, 4097, 4300]) };
+    let (kind, n) = forced.unwrap_or((kind, n));
+    let window = kind >= 3;
+    // the channel will be the first one opened on the connection
+    let id: u16 = 1;
     // the frames the broker will push
     let mut frames: Vec<FR> = Vec::new();
     for i in 0..n {
         match kind {
-            0 => {
+            0 | 3 => {
                 let tag = if rng.chance(1, 20) { rng.next() } else { i as u64 + 1 };
                 let m = rng.chance(1, 5);
                 frames.push(FR::Method(id, if rng.chance(1, 4) { SM::Nack(tag, m) } else { SM::Ack(tag, m) }));
             }
-            1 => {
+            1 | 4 => {
                 // long runs are about the count: tiny messages keep the case file small
                 let small = n > 300;
                 let len = if small { *rng.pick(&[0usize, 1, 2]) } else { *rng.pick(&[0usize, 1, 10, 300]) };
@@ -58,6 +68,18 @@ pub fn scenario(sub: u64) -> Option<(String, u64, usize)> {
             }
         }
     }
+    let (stream, peer) = mock_pair();
+    let cfg = BrokerCfg { before_chan_close_ok: if window { frames.iter().map(|f| f.to_amqp()).collect() } else { Vec::new() }, ..BrokerCfg::default() };
+    let broker = Broker::start(peer.clone(), cfg);
+    let mut conn = with_deadline(
+        move || Connection::insecure_open_stream(stream, ConnectionOptions::<Auth>::default(), ConnectionTuning::default()),
+        Duration::from_secs(5),
+    )?
+    .ok()?;
+    let ch = conn.open_channel(None).ok()?;
+    if ch.channel_id() != id {
+        return None;
+    }
     // the listener, through the public API; a synchronous call afterwards makes sure the
     // I/O thread has it before the first notice arrives
     enum Rx {
@@ -66,12 +88,12 @@ pub fn scenario(sub: u64) -> Option<(String, u64, usize)> {
         B(crossbeam_channel::Receiver<ConnectionBlockedNotification>),
     }
     let rx = match kind {
-        0 => {
+        0 | 3 => {
             let r = ch.listen_for_publisher_confirms().ok()?;
             ch.enable_publisher_confirms().ok()?;
             Rx::C(r)
         }
-        1 => {
+        1 | 4 => {
             let r = ch.listen_for_returns().ok()?;
             ch.qos(0, 1, false).ok()?;
             Rx::R(r)
@@ -89,13 +111,20 @@ pub fn scenario(sub: u64) -> Option<(String, u64, usize)> {
         Rx::R(r) => r.len(),
         Rx::B(r) => r.len(),
     };
-    // pushed in read episodes of up to 700 frames; nobody reads the receiver meanwhile
-    for chunk in frames.chunks(700) {
-        let mut bytes = Vec::new();
-        for f in chunk {
-            bytes.extend_from_slice(&wire::encode(&f.to_amqp()));
+    let mut ch_opt = Some(ch);
+    if window {
+        // the client closes the channel; the server sends the notices, then its CloseOk
+        let c = ch_opt.take().unwrap();
+        let _ = with_deadline(move || c.close(), Duration::from_secs(5));
+    } else {
+        // pushed in read episodes of up to 700 frames; nobody reads the receiver meanwhile
+        for chunk in frames.chunks(700) {
+            let mut bytes = Vec::new();
+            for f in chunk {
+                bytes.extend_from_slice(&wire::encode(&f.to_amqp()));
+            }
+            peer.push(bytes);
         }
-        peer.push(bytes);
     }
     let t0 = Instant::now();
     let mut last = (len_of(&rx), Instant::now());
@@ -109,7 +138,10 @@ pub fn scenario(sub: u64) -> Option<(String, u64, usize)> {
         }
     }
     // still alive? a synchronous call must work
-    let fine = ch.qos(0, 2, false).is_ok();
+    let fine = match &ch_opt {
+        Some(ch) => ch.qos(0, 2, false).is_ok(),
+        None => conn.open_channel(None).map(|c| std::mem::forget(c)).is_ok(),
+    };
     let got: Vec<String> = match &rx {
         Rx::C(r) => r
             .try_iter()
@@ -149,7 +181,9 @@ pub fn scenario(sub: u64) -> Option<(String, u64, usize)> {
         coqfmt::list(&got, |g| g.clone()),
         coqfmt::b(fine)
     );
-    std::mem::forget(ch);
+    if let Some(ch) = ch_opt {
+        std::mem::forget(ch);
+    }
     std::mem::forget(conn);
     let _ = broker.stop();
     Some((term, kind, n))
@@ -161,14 +195,14 @@ pub fn run(a: &Args) {
     let subs: Vec<u64> = if let Some(pos) = a.rest.iter().position(|x| x == "--line") {
         vec![a.rest[pos + 1].split_whitespace().last().unwrap().parse().unwrap()]
     } else {
-        (0..a.n).map(|_| rng.next()).collect()
+        (1..=8u64).chain((0..a.n.saturating_sub(8)).map(|_| rng.next())).collect()
     };
     for chunk in subs.chunks(4) {
         let hs: Vec<_> = chunk.iter().map(|&s| std::thread::spawn(move || (s, scenario(s)))).collect();
         for h in hs {
             match h.join() {
                 Ok((s, Some((term, kind, n)))) => {
-                    sink.count(["confirms", "returns", "blocked"][kind as usize]);
+                    sink.count(["confirms", "returns", "blocked", "confirms-in-close-window", "returns-in-close-window"][kind as usize]);
                     sink.count(if n > 4096 { "more-than-4096-unread" } else if n >= 300 { "300..4096-unread" } else { "few" });
                     sink.push_line(term, n > 1, format!("l2 {}", s));
                 }
